@@ -49,7 +49,15 @@ def _connect_retry(s, path):
 
 def connect_as(path, uid=None, gid=None):
     """Return a connected AF_UNIX socket whose peer credentials are those of (uid, gid).
-    Needs root for uid != current."""
+    Needs root for uid != current.  path may also be ("host", port[, nonce bytes]): a TCP connection (no credentials;
+    the nonce of a nonce-tcp listener, if given, is written first)."""
+    if isinstance(path, tuple):
+        s = socket.socket(socket.AF_INET, socket.SOCK_STREAM)
+        s.setsockopt(socket.IPPROTO_TCP, socket.TCP_NODELAY, 1)
+        _connect_retry(s, (path[0], path[1]))
+        if len(path) > 2 and path[2]:
+            s.sendall(path[2])
+        return s
     if uid is None or (uid == os.getuid() and (gid is None or gid == os.getgid())):
         s = socket.socket(socket.AF_UNIX, socket.SOCK_STREAM)
         _connect_retry(s, path)
@@ -103,6 +111,7 @@ class Client(object):
         self.clock = clock or Clock()
         self.label = label
         self.uid = os.getuid() if uid is None else uid
+        self.tcp = isinstance(path, tuple)
         self.sock = connect_as(path, uid, gid)
         self.sock.setblocking(True)
         self.buf = bytearray()
@@ -136,7 +145,11 @@ class Client(object):
     def auth(self, negotiate_fd=False, uid=None, begin=True):
         ident = str(self.uid if uid is None else uid).encode().hex().encode()
         try:
-            self.send_bytes(b"\0AUTH EXTERNAL " + ident + b"\r\n")
+            if self.tcp:
+                # no socket credentials over TCP: the listener must allow ANONYMOUS
+                self.send_bytes(b"\0AUTH ANONYMOUS 7665726966\r\n")
+            else:
+                self.send_bytes(b"\0AUTH EXTERNAL " + ident + b"\r\n")
         except OSError as e:
             raise Closed("connection dropped before authentication: %s" % e)
         line = self.read_line()
